@@ -109,3 +109,29 @@ M("r5-invalid-token-wrong-code", ["C15"], "break",
   [("yaep.c", "    yaep_error (YAEP_INVALID_TOKEN_CODE, \"invalid token code %d\", code);", "    yaep_error (YAEP_UNDEFINED_OR_BAD_GRAMMAR, \"invalid token code %d\", code);")], "tok_add/invalid-code")
 M("r5-invalid-token-extra-condition", ["C15"], "break",
   [("yaep.c", "  if (tok.symb == NULL)\n    yaep_error (YAEP_INVALID_TOKEN_CODE", "  if (tok.symb == NULL && code > 255)\n    yaep_error (YAEP_INVALID_TOKEN_CODE")], "tok_add/invalid-code")
+
+# ---- R5-undef / R2e (C14, C15, C10) ---------------------------------------------------------
+M("undef-revert-F3-store", ["C14", "C15"], "break",
+  [("yaep.c", "  yaep_empty_grammar ();\n  grammar->undefined_p = TRUE;\n", "  yaep_empty_grammar ();\n")], "yaep_read_grammar/failing-exit")
+M("undef-revert-F3-parse-grammar", ["C14", "C15"], "break",
+  [("sgramm.y", "      g->undefined_p = TRUE;\n", "")], "yaep_parse_grammar/failing-exit")
+M("undef-revert-F4-conditional-empty", ["C14"], "break",
+  [("yaep.c", "  yaep_empty_grammar ();\n  grammar->undefined_p = TRUE;\n", "  if (!grammar->undefined_p)\n    yaep_empty_grammar ();\n  grammar->undefined_p = TRUE;\n")], "yaep_read_grammar/empties-first")
+M("undef-defined-too-early", ["C14", "C15"], "break",
+  [("yaep.c", "  check_grammar (strict_p);\n#ifdef SYMB_CODE_TRANS_VECT", "  grammar->undefined_p = FALSE;\n  check_grammar (strict_p);\n#ifdef SYMB_CODE_TRANS_VECT")], "yaep_read_grammar/failing-exit")
+M("undef-parse-marks-defined", ["C14", "C15"], "break",
+  [("yaep.c", "  n_goto_successes = 0;\n  tok_init ();", "  n_goto_successes = 0;\n  grammar->undefined_p = FALSE;\n  tok_init ();")], "yaep_parse/unchanged")
+M("undef-success-not-marked", ["C14", "C15"], "break",
+  [("yaep.c", "  grammar->undefined_p = FALSE;\n  return 0;", "  return 0;")], "yaep_read_grammar/successful-exit")
+M("r2e-empty-forgets-nterms", ["C14"], "break",
+  [("yaep.c", "  OS_EMPTY (symbs->symbs_os);\n  symbs->n_nonterms = symbs->n_terms = 0;", "  OS_EMPTY (symbs->symbs_os);\n  symbs->n_nonterms = 0;")], "symb_init~symb_empty/n_terms")
+M("r2e-empty-forgets-code-table", ["C14"], "break",
+  [("yaep.c", "  empty_hash_table (symbs->repr_to_symb_tab);\n  empty_hash_table (symbs->code_to_symb_tab);", "  empty_hash_table (symbs->repr_to_symb_tab);")], "symb_init~symb_empty/code_to_symb_tab")
+M("r2e-empty-forgets-rules-os", ["C14"], "break",
+  [("yaep.c", "  OS_EMPTY (rules->rules_os);\n", "")], "rule_init~rule_empty/rules_os")
+M("r2e-empty-forgets-first-rule", ["C14"], "break",
+  [("yaep.c", "  rules->first_rule = rules->curr_rule = NULL;\n  rules->n_rules = rules->n_rhs_lens = 0;\n}\n\n/* Finalize work with rules. */", "  rules->curr_rule = NULL;\n  rules->n_rules = rules->n_rhs_lens = 0;\n}\n\n/* Finalize work with rules. */")], "rule_init~rule_empty/first_rule")
+M("r2e-empty-grammar-skips-term-sets", ["C14"], "break",
+  [("yaep.c", "      term_set_empty (grammar->term_sets_ptr);\n", "")], "yaep_empty_grammar/term_set_empty")
+M("r2e-trans-vect-not-nulled", ["C14"], "break",
+  [("yaep.c", "      yaep_free (grammar->alloc, symbs->symb_code_trans_vect);\n      symbs->symb_code_trans_vect = NULL;", "      yaep_free (grammar->alloc, symbs->symb_code_trans_vect);")], "symb_code_trans_vect")
